@@ -570,6 +570,30 @@ func g01Handle(repo string, w *Out) error {
 		return fmt.Errorf("connectHTTP: d.DialContextR(…) call not found at top level")
 	}
 	w.DefBool("connect_header_cloned_unconditionally", cloneIdx >= 0 && cloneIdx < dialIdx)
+	// dialvia.HTTPProxyDialer.DialContextR: the CONNECT header is the client's (ProxyConnectHeader) merged with the
+	// callback's result, both copied into the request header, in that order, before the request is written
+	fd, err := Parse(repo, "dialvia/http.go")
+	if err != nil {
+		return err
+	}
+	dr, err := fd.Func("HTTPProxyDialer.DialContextR")
+	if err != nil {
+		return err
+	}
+	copyClient, copyDyn, writeIdx := -1, -1, -1
+	for i, st := range dr.Body.List {
+		txt := fd.Src(st)
+		switch {
+		case txt == "maps.Copy(req.Header, d.ProxyConnectHeader)":
+			copyClient = i
+		case strings.HasPrefix(txt, "if d.GetProxyConnectHeader != nil {") && strings.Contains(txt, "maps.Copy(req.Header, headers)") &&
+			!strings.Contains(txt, "len(headers)"):
+			copyDyn = i
+		case strings.Contains(txt, "req.Write(pbw)") && writeIdx < 0:
+			writeIdx = i
+		}
+	}
+	w.DefBool("connect_header_merges_client_and_callback", copyClient >= 0 && copyDyn > copyClient && writeIdx > copyDyn)
 	// writeErrorResponse never round-trips
 	we, err := f.Func("proxyConn.writeErrorResponse")
 	if err != nil {
